@@ -12,9 +12,9 @@ if [ -z "$res" ] && ! go build ./... >/dev/null 2>&1; then res="does-not-build";
 if [ -z "$res" ] && ! go test -vet=off -count=1 ./... >/dev/null 2>&1; then res="suite-fails-with-change"; fi
 if [ -z "$res" ]; then
   cp "$d/demo_test.go" ./zz_demo_test.go
-  if go test -vet=off -count=1 -run 'C[0-9][0-9]|Demo|Seed|Budget|Reuse|Patch|Promot|Mixed' . >/dev/null 2>&1; then res="demo-passes-with-change"; fi
+  if go test -vet=off -count=1 -run 'C[0-9][0-9]|Demo|Seed|Budget|Reuse|Patch|Promot|Mixed' -timeout 120s . >/dev/null 2>&1; then res="demo-passes-with-change"; fi
   git apply -R "$d/patch.diff"
-  if [ -z "$res" ] && ! go test -vet=off -count=1 -run 'C[0-9][0-9]|Demo|Seed|Budget|Reuse|Patch|Promot|Mixed' . >/dev/null 2>&1; then res="demo-fails-without-change"; fi
+  if [ -z "$res" ] && ! go test -vet=off -count=1 -run 'C[0-9][0-9]|Demo|Seed|Budget|Reuse|Patch|Promot|Mixed' -timeout 120s . >/dev/null 2>&1; then res="demo-fails-without-change"; fi
 fi
 [ -z "$res" ] && res="CONFIRMED"
 cd /; git -C /repo worktree remove --force "$wt"
